@@ -296,6 +296,8 @@ func (g *gen) genStatement(typ types.Type, this, that string) error {
 			p.Out()
 			p.P("}")
 			p.P("return 1")
+		case types.UnsafePointer:
+			return fmt.Errorf("unsupported compare type: %s, it has no order", g.TypeString(typ))
 		default:
 			p.P("if %s != %s {", this, that)
 			p.In()
